@@ -190,6 +190,7 @@ def replay(ctx, h, cfg, tag, inputs, kind):
     obs, rc, errtxt = native_obs(native, f, HANG_CAP if kind == 'nontermination' else 120)
     detail = {'native_rc': rc, 'native_obs_tail': (obs or [])[-6:], 'native_stderr_tail': errtxt[-1500:]}
     if kind == 'property': ok = rc == 10
+    elif kind == 'internal-error': ok = any(w in errtxt for w in ('error: ', 'critical: ', 'alert: ', 'fatal: '))   # the real code wrote the same log line
     elif kind == 'nontermination': ok = rc == 'timeout'      # the real code is still running after HANG_CAP seconds on the solver's inputs
     elif kind == 'exception': ok = rc == 11
     elif kind == 'reach': ok = rc == 12
